@@ -799,6 +799,10 @@ class PteraTransformer(NodeTransformer):
             x: int = _ptera_interact('x', int)
         """
         value = node.value and self.visit(node.value)
+        if value is None and not isinstance(node.target, ast.Name):
+            # `obj.attr: T` or `seq[i]: T` without a value: Python evaluates
+            # the object and stores nothing; there is no variable to supply
+            return node
         if (
             value is None
             and isinstance(node.target, ast.Name)
